@@ -71,6 +71,9 @@ func c01Cover(st *engine.Step) []string {
 
 var bothBrowsers = []string{"B1", "B2"}
 
+// c01Long80 meets the default password policy and is 80 bytes long (bcrypt reads 72).
+var c01Long80 = "Aa1!" + strings.Repeat("long-passphrase-", 4) + "0123456789ab"
+
 func seedTwo(s *world.Stack, w *world.World, a1, a2 flows.Acct) {
 	a1.PID, a1.Password = U1, P1
 	a2.PID, a2.Password = U2, P2
@@ -179,7 +182,7 @@ func c01Scenarios(tier string) []engine.Scenario {
 				b := b
 				for _, pid := range []string{U3, U1} {
 					pid := pid
-					for _, pw := range []cand{{"pw:ok", P3}, {"pw:weak", "short"}, {"pw:empty", ""}} {
+					for _, pw := range []cand{{"pw:ok", P3}, {"pw:weak", "short"}, {"pw:empty", ""}, {"pw:long80", c01Long80}} {
 						pw := pw
 						a = append(a, flows.A(fmt.Sprintf("register(%s,%s,%s)", b, short(pid), pw.note), func(s *world.Stack, _ *world.World) world.Req {
 							return flows.Register(s, b, map[string]string{"email": pid, "password": pw.val, "confirm_password": pw.val})
@@ -187,6 +190,14 @@ func c01Scenarios(tier string) []engine.Scenario {
 					}
 				}
 				a = append(a, loginActs(w, b, []string{U3}, []string{U1, U3}, false, []bool{false})...)
+				// a passphrase longer than bcrypt's 72 bytes, and another one that shares its first 72 bytes
+				for _, c := range []cand{{"pw:long80", c01Long80}, {"pw:long80-other-tail", c01Long80[:72] + "ZZZZZZZZ"}} {
+					a = append(a, flows.A(fmt.Sprintf("login(%s,u3,%s)", b, c.note), func(s *world.Stack, _ *world.World) world.Req {
+						r := flows.Login(s, b, U3, c.val, false)
+						r.Tag.Note = c.note
+						return r
+					}, ""))
+				}
 				a = append(a, simple("logout("+b+")", func(s *world.Stack) world.Req { return flows.Logout(s, b) }))
 			}
 			return a
